@@ -26,7 +26,7 @@ void verif_yaml_word(int c, char *dst);
 int verif_yaml_pos;                 /* events delivered so far */
 int verif_yaml_open_events;         /* events not yet deleted */
 #ifdef VERIF_YAML_SCRIPTED
-extern const int verif_yaml_types[VERIF_YAML_LEN];
+extern int verif_yaml_types[VERIF_YAML_LEN];
 extern const int verif_yaml_script_n;
 const char *verif_yaml_scalar(int pos);   /* harness: value of the scalar at script position pos */
 #endif
